@@ -23,7 +23,7 @@ FAULTS = ["none", "none", "flip_ct", "flip_tag", "flip_aad", "flip_nonce", "trun
           "ext_tag", "trunc_ct", "ext_ct", "reframe", "rotate", "zero_tag", "swap_tag", "swap_ct", "swap_aad",
           "swap_nonce", "block_swap", "block_swap_pow2", "drop_aad"]
 KW_FAULTS = ["none", "none", "flip_ct", "trunc8", "ext8", "rotate8", "splice", "craft_icv", "craft_len", "craft_pad", "trunc1"]
-PATHS = ["dav", "dav", "split", "split_hex", "dav_out", "split_out", "verify_twice"]
+PATHS = ["dav", "dav", "split", "split_hex", "dav_out", "split_out", "split_alias", "dav_alias", "verify_twice"]
 
 
 def kw_W(ecb, pt):
@@ -84,7 +84,7 @@ class Machine(object):
     SELFTEST_RUNS = 32
 
     def budget(self, tier):
-        return 80000 if tier == "quick" else 3000000
+        return 50000 if tier == "quick" else 2000000
 
     # ------------------------------------------------------------------ gen
     def gen(self, rng, tier, idx):
@@ -121,6 +121,9 @@ class Machine(object):
                 rec["aad"] = [[s + 200 + 10 * i + j, pick_size(rng, cap=80)] for j in range(rng.randrange(0, 4))]
             else:
                 rec["aad"] = [[s + 200 + i, pick_size(rng, cap=120) if rng.random() < 0.7 else 0]]
+                if rng.random() < 0.03:
+                    # associated data around the length-encoding boundaries of the modes (CCM: 2/6/10-octet forms)
+                    rec["aad"] = [[s + 200 + i, rng.choice([65279, 65280, 65281, 65533, 65534, 65535, 65536, 65537, 4096, 70000])]]
             recs.append(rec)
         ops = []
         for _ in range(rng.randrange(2, 14)):
@@ -164,6 +167,29 @@ class Machine(object):
             if a:
                 c.update(a)
         return c.encrypt_and_digest(pt)
+
+    def _spec(self, cfg, nonce, aad, pt):
+        from ..refs import aead as RA
+        fam = cfg["fam"]
+        m = F.mod(cfg["alg"]) if fam != "ChaCha20-Poly1305" else None
+        key = F.cipher_key(cfg)
+        a = b"".join(aad)
+        size = len(a) + len(pt)
+        if fam == "CCM":
+            return RA.ccm(m, key, nonce, a, pt, cfg["mac_len"])
+        if fam == "EAX":
+            return RA.eax(m, key, nonce, a, pt, cfg["mac_len"])
+        if fam == "GCM":
+            return RA.gcm(m, key, nonce, a, pt, cfg["mac_len"]) if size <= 20000 else None
+        if fam == "OCB":
+            return RA.ocb(m, key, nonce, a, pt, cfg["mac_len"]) if size <= 20000 else None
+        if fam == "SIV":
+            if not aad and nonce is None and False:
+                return None
+            return RA.siv(m, key, nonce, aad, pt)
+        if fam == "ChaCha20-Poly1305":
+            return RA.chacha20_poly1305(F.mod("ChaCha20"), key, nonce, a, pt)
+        return None
 
     def _legal_nonce(self, fam, nonce):
         n = len(nonce)
@@ -212,6 +238,17 @@ class Machine(object):
             pt = F.D(r["pt"])
             ct, tag = self._seal(cfg, nonce, aad, pt)
             sent.append({"nonce": nonce, "aad": aad, "ct": ct, "tag": tag, "pt": pt})
+            # the sender's output against an independent construction of the mode over the classic primitives
+            ref = self._spec(cfg, nonce, aad, pt)
+            if ref is not None:
+                ctx.probe("spec_reference_compared")
+                if ref != (ct, tag):
+                    what = "ciphertext" if ref[0] != ct else "tag"
+                    ctx.violate("aead/%s/spec-%s" % (fam, what),
+                                "the %s produced by encryption differs from an independent construction of %s over the classic primitives "
+                                "(nonce %d bytes, AAD %d bytes, message %d bytes, tag %d bytes)" % (
+                                    what, fam, len(nonce or b""), sum(len(a) for a in aad), len(pt), len(tag)),
+                                observed=(ct[:16].hex(), tag.hex()), expected=(ref[0][:16].hex(), ref[1].hex()))
         taglen = len(sent[0]["tag"])
         ctx.state((fam, cfg.get("mac_len"), len(sent[0]["nonce"] or b"")))
         for op in case["ops"]:
@@ -338,8 +375,28 @@ class Machine(object):
                         c.update(a[:j]); c.update(a[j:])
                     else:
                         c.update(a)
-            if fam in ("OCB", "ChaCha20-Poly1305") and path == "dav_out":
-                path = "dav"
+            if fam in ("OCB", "ChaCha20-Poly1305") and path in ("dav_out", "dav_alias"):
+                path = "dav" if fam == "OCB" else "split_alias"
+            if fam == "OCB" and path == "split_alias":
+                path = "split"
+            if path == "dav_alias":
+                buf = bytearray(ct)
+                c.decrypt_and_verify(buf, tag, output=buf)
+                return True, bytes(buf)
+            if path == "split_alias" and fam != "CCM":
+                # in place: the caller's buffer is both input and output, in two pieces
+                buf = bytearray(ct)
+                mv = memoryview(buf)
+                j = salt % (len(ct) + 1)
+                c.decrypt(mv[:j], output=mv[:j])
+                c.decrypt(mv[j:], output=mv[j:])
+                c.verify(tag)
+                return True, bytes(buf)
+            if path == "split_alias":
+                buf = bytearray(ct)
+                c.decrypt(buf, output=buf)
+                c.verify(tag)
+                return True, bytes(buf)
             if path == "dav":
                 return True, c.decrypt_and_verify(ct, tag)
             if path == "dav_out":
